@@ -6,9 +6,12 @@ PID = "C03"
 F_BIN = "yash_arith::eval::binary_result"
 
 
-def setup(w):
+def setup(w, name="", tier="thorough"):
     w.inject("yash-arith/src/eval.rs", "c03_eval.rs")
     w.inject("yash-arith/src/ast.rs", "c03_ast.rs")
+    w.inject("yash-arith/src/token.rs", "c03_token.rs")
+    if tier == "quick":
+        w.strip_thorough("c03_token.rs")
     return core.KaniSession(w, w.ws, pkg="yash-arith", tag="arith", zflags=["stubbing"])
 
 
@@ -31,6 +34,21 @@ def harnesses(tier):
                 ["yash_arith::eval::apply_prefix", "yash_arith::eval::apply_postfix"],
                 "exact value, Overflow for -MIN, AssignmentToValue for ++/-- on a non-variable; nothing assigned", timeout=900, mod=M),
     ]
+    VARSTUB = ["expand_variable -> the variable holds a symbolic i64 (str::parse cut)", "assign -> records the assigned i64 (to_string cut)"]
+    AB = ["yash_arith::eval::apply_binary", F_BIN]
+    hs += [
+        Harness("c03_compound_assign_linear", "variable value and right operand: all i64; += -= |= ^= &= <<= >>=", AB,
+                "a op= b computes a op b (same value or same error kind), assigns exactly that value once, assigns nothing on error",
+                timeout=900, mod=M, stubs=VARSTUB),
+        Harness("c03_compound_assign_mul", "variable value and right operand: all i64; *=", AB,
+                "a *= b computes a * b or Overflow, assigns once / nothing", timeout=1500, mod=M, stubs=VARSTUB),
+        Harness("c03_compound_assign_divrem_bounded", "operands in [-256,255] ∪ {MIN,MIN+1,MAX}; /= %=", AB,
+                "a /= b, a %= b as the plain operators; nothing assigned on DivisionByZero / Overflow", timeout=1200, mod=M, stubs=VARSTUB),
+        Harness("c03_incdec_on_variable", "variable value: all i64; ++x --x x++ x--",
+                ["yash_arith::eval::apply_prefix", "yash_arith::eval::apply_postfix"],
+                "prefix yields the new value, postfix the old one, the new value is assigned once; Overflow at the edges assigns nothing",
+                timeout=600, mod=M, stubs=VARSTUB),
+    ]
     for nm, tpl in [("or", "l || 1/0"), ("and", "l && 1/0")]:
         hs.append(Harness("c03_lazy_" + nm, "template `%s` built as an AST; c / l: all i64" % tpl,
                           ["yash_arith::eval::eval", "yash_arith::eval::apply_binary", "yash_arith::eval::into_value"],
@@ -50,6 +68,45 @@ def harnesses(tier):
         Harness("c03_operator_tables", "every pair of the 37 operator tokens", T,
                 "precedence and associativity follow ISO C 6.5; each token denotes its C operator", timeout=600, mod=MA),
     ]
+    MT = "token::verif_c03_token"
+    FT = ["yash_arith::token::Tokens::next_token"]
+    UNI = ["core::unicode::unicode_data::{alphabetic,n}::lookup -> arbitrary bool above U+007F (over-approximation of the Unicode tables)"]
+    # the 37-entry operator table is scanned by Iterator::find
+    OPTABLE = (r"token::Operator\)> as std::iter::Iterator>::try_fold", 39)
+    def text_h(name, ws, what):
+        return Harness(name, what, FT,
+                       "tokenizer total (no panic, progress, ranges on character boundaries inside the text), token kind "
+                       "determined by the first character, operators by longest match", timeout=1500, mem_gb=12, mod=MT,
+                       stubs=UNI, cover_group="c03_text", cbmc_unwind=sum(int(c) for c in ws) + 3, loop_bounds=[OPTABLE])
+
+    for ws in (["1", "2"] if tier == "quick" else ["1", "2", "3", "4"]):
+        hs.append(text_h("c03_text_w" + ws, ws, "every text of ONE character of UTF-8 width %s (any Unicode scalar value of that width)" % ws))
+    firsts = [("one", "1"), ("zero", "0"), ("a", "a"), ("us", "_"), ("plus", "+"), ("lt", "<"), ("sp", " "), ("dollar", "$")]
+    # quick: the second-position cases that exercise distinct code (a constant followed by a character of each width, a name
+    # continued by a non-ASCII character, two-character operators); thorough: the full product and three-character texts
+    QUICK = {"one_w2", "a_w2", "plus_w1"}
+    for nm, ch in firsts:
+        for ws in ["11", "12", "13", "14"] + (["111", "112", "121"] if tier == "thorough" else []):
+            key = "%s_w%s" % (nm, ws[1:])
+            if tier == "quick" and key not in QUICK:
+                continue
+            hs.append(text_h("c03_text_" + key, ws,
+                             "every text %r + %d further character(s) of UTF-8 widths %s, each any Unicode scalar value of that width"
+                             % (ch, len(ws) - 1, "+".join(ws[1:]))))
+    if tier == "thorough":
+        for ws in ["11", "12", "13", "14", "21", "22", "31", "41", "111"]:
+            hs.append(text_h("c03_text_w" + ws, ws, "every text of %d characters with UTF-8 widths %s, each any Unicode scalar value "
+                             "of that width" % (len(ws), "+".join(ws))))
+    consts = ["hex_0", "hex_16", "dec_any_3"]
+    if tier == "thorough":
+        consts += ["hex_any_3", "oct_any_3", "hex_1", "dec_1", "oct_0", "hex_15", "hex_16u", "hex_17", "dec_18", "dec_19", "dec_20", "oct_21", "oct_22"]
+    for c in consts:
+        hs.append(Harness("c03_const_" + c, "constant with prefix/radix %s and %s symbolic digit characters"
+                          % (c.split("_")[0], c.split("_")[-1]), FT + ["core::num::<impl i64>::from_str_radix"],
+                          "a constant denotes its exact mathematical value, or InvalidNumericConstant when malformed or not "
+                          "representable in i64 (never a wrapped value)", timeout=2400, mem_gb=12, mod=MT, stubs=UNI,
+                          cover_group="c03_const",
+                          cbmc_unwind=int(c.split("_")[-1].rstrip("u")) + 6, loop_bounds=[OPTABLE]))
     return hs
 
 
@@ -132,9 +189,10 @@ def run(tier, seed, only=None):
 
     def body():
         w = core.Workspace("c03")
-        sess = setup(w)
+        sess = setup(w, tier=tier)
         hs = [h for h in harnesses(tier) if not only or h.name in only]
-        res = sess.run_all(hs, jobs=6)
+        hs.sort(key=lambda h: -h.timeout)   # the long-running tokenizer obligations first
+        res = sess.run_all(hs, jobs=16 if tier == "quick" else 12)
         out.extra["kani_build_s"] = round(sess.build_s, 1)
         out.extra["repo_state"] = w.repo_state
         out.extra["injected"] = w.injected
